@@ -151,6 +151,28 @@ if prop == 'C11':
                 viol.append({'doc': text, 'ops': ops[:], 'what': 'an edit on a document object that was edited before differs from the same edit on a fresh parse of the same text', 'same_object': same[1][:300], 'fresh_parse': fresh[1][:300]}); break
             if same[0] != 'ok': continue
             cur = fresh[1]
+# ---- stacked `with` environments and nothing else (fourth round of seeds): among withs the innermost one that has the name wins;
+# reached through the document-level item access, with an identifier or an attribute set as the body
+if prop == 'C10':
+    def res2(f):
+        try:
+            v = f(); g = v.rebuild().strip() if hasattr(v, 'rebuild') else repr(v); return g
+        except ResolutionError: return 'RESERR'
+        except Exception as ex: return 'EXC:' + type(ex).__name__
+    for it in range(max(40, N // 4)):
+        k = R.randint(1, 3); wn = ['x', 'y', 'a']
+        envs = [{nm: R.randrange(10, 99) for nm in R.sample(wn, R.randint(1, 2))} for _ in range(k)]
+        kind = R.choice(['ident_body', 'set_body']); target = R.choice(wn); exp = None
+        for fr in reversed(envs):
+            if target in fr: exp = fr[target]; break
+        if kind == 'ident_body':
+            text = ' '.join('with { %s };' % ' '.join('%s = { foo = %d; };' % kv for kv in fr.items()) for fr in envs) + ' ' + target + '\n'
+            got = res2(lambda: parse(text)['foo'])
+        else:
+            text = ' '.join('with { %s };' % ' '.join('%s = %d;' % kv for kv in fr.items()) for fr in envs) + ' { foo = %s; }\n' % target
+            got = res2(lambda: parse(text)['foo'].value)
+        want = str(exp) if exp is not None else 'RESERR'; count('with-stack/%s/%d' % (kind, k))
+        if got != want: viol.append({'doc': text, 'path': ['foo'], 'what': 'among stacked with environments Nix takes %s (innermost environment that has the name), resolution gives %s' % (want, got)})
 for it in range(N):
     doc = gen_doc(); text = show(doc) + '\n'
     e, env = whnf(doc, [], set(), [])
